@@ -56,10 +56,10 @@ def setup(tier):
 
 def required(tier):
     return {
-        "mon": ["backend:svd", "backend:randomized_svd"],
+        "mon": ["backend:svd", "backend:randomized_svd", "history:prior_fit"],
         "cover": [f"kind:{k}" for k in KINDS]
         + ["use_pca:True", "use_pca:False", "npca:int", "npca:all", "npca:float", "eig:complex_pair", "eig:neg_real", "eig:pos_real"]
-        + ["backend:svd", "backend:randomized_svd", "center:False", "standardize:True", "coslat:True", "weights:True", "osc_pairs:1", "osc_pairs:2", "osc_pairs:3"],
+        + ["backend:svd", "backend:randomized_svd", "center:False", "standardize:True", "coslat:True", "weights:True", "osc_pairs:1", "osc_pairs:2", "osc_pairs:3", "history:refit", "history:fresh"],
     }
 
 
@@ -289,10 +289,25 @@ def run_case(case, obs):
         else:
             kw["n_pca_modes"] = case["frac"]
             kw["pca_init_rank_reduction"] = case["irr"]
-    mon.reset()
     model = xe.single.POP(**kw)
+    refit = case["dseed"] % 3 == 0
+    obs.tag(history="refit" if refit else "fresh")
+    obs.cell("history:" + ("refit" if refit else "fresh"))
     with warnings.catch_warnings():
         warnings.simplefilter("ignore")
+        if refit:
+            # hostile history: the same object was fitted on other data (time reversed + noise) and read before;
+            # nothing of that may survive into the fit that is judged
+            Xo = b["X"].copy(data=b["X"].values[::-1] * (1.0 + 0.1 * np.random.default_rng(case["dseed"]).standard_normal(b["X"].shape)))
+            try:
+                model.fit(Xo, dim="time", weights=b["W"])
+                model.eigenvalues()
+                model.scores()
+                obs.count("history:prior_fit")
+            except Exception:  # noqa: BLE001  (the perturbed data may be unusable on its own account)
+                model = xe.single.POP(**kw)
+                obs.count("history:prior_fit_raised")
+        mon.reset()
         model.fit(b["X"], dim="time", weights=b["W"])
     events = mon.drain(obs)
     backends = [e["backend"] for e in events if e.get("kind") == "backend" and e.get("where") == "_SVD"]
